@@ -1,0 +1,96 @@
+//go:build verif
+
+// Contracts for package rpc, read by /verif/govc.
+package rpc
+
+import (
+	"github.com/resgateio/resgate/server/codec"
+	"github.com/resgateio/resgate/server/reserr"
+)
+
+var _ = codec.IsValidRID
+var _ = reserr.ErrInvalidRequest
+
+// replies counts the frames written with Requester.Reply.
+//@ ghost var replies int
+
+// The requester (the connection) is specified by what its methods promise: each request method
+// invokes the callback it is given exactly once (proved for *wsConn in package server);
+// Reply writes one frame.
+//@ func Requester.Reply
+//@   trusted
+//@   ensures replies == old(replies) + 1
+//@   assigns replies
+//@ func Requester.GetResource
+//@   trusted
+//@   resolves callback exactly-once
+//@   callback callback requires err != nil ==> reserr.predErrOK(err)
+//@ func Requester.SubscribeResource
+//@   trusted
+//@   resolves callback exactly-once
+//@   callback callback requires err != nil ==> reserr.predErrOK(err)
+//@ func Requester.UnsubscribeResource
+//@   trusted
+//@   requires count > 0
+//@   resolves callback exactly-once
+//@ func Requester.CallResource
+//@   trusted
+//@   resolves callback exactly-once
+//@   callback callback requires err != nil ==> reserr.predErrOK(err)
+//@ func Requester.AuthResource
+//@   trusted
+//@   resolves callback exactly-once
+//@   callback callback requires err != nil ==> reserr.predErrOK(err)
+//@ func Requester.NewResource
+//@   trusted
+//@   resolves callback exactly-once
+//@   callback callback requires err != nil ==> reserr.predErrOK(err)
+//@ func Requester.SetVersion
+//@   trusted
+//@   ensures result1 != nil ==> reserr.predErrOK(result1)
+//@   assigns nothing
+
+//@ func (*Request).ErrorResponse
+//@   requires r != nil && reserr.predErrOK(err)
+//@   assigns nothing
+//@   safety[C15]
+//@ func (*Request).SuccessResponse
+//@   requires r != nil
+//@   assigns nothing
+//@   safety[C15]
+
+// HandleRequest: a frame that is not a JSON object with an id gets no reply and reaches no
+// request method; every other frame gets exactly one reply, now or through exactly one callback
+// handed to exactly one request method. Request methods are reached only with a valid resource
+// id (and a valid method part for call/auth), unsubscribe only with a positive count.
+//@ func HandleRequest
+//@   requires req != nil
+//@   ensures[C07] result != nil ==> replies == old(replies) && handed() == old(handed())
+//@   ensures[C07] result == nil ==> (replies - old(replies)) + (handed() - old(handed())) == 1
+//@   assert[C14] req.GetResource#1: codec.predValidRID(arg0, true)
+//@   assert[C14] req.SubscribeResource#1: codec.predValidRID(arg0, true)
+//@   assert[C14,C08] req.UnsubscribeResource#1: codec.predValidRID(arg0, true) && arg1 > 0
+//@   assert[C14] req.CallResource#1: codec.predValidRID(arg0, true) && codec.predValidPart(arg1)
+//@   assert[C14] req.AuthResource#1: codec.predValidRID(arg0, true) && codec.predValidPart(arg1)
+//@   assert[C14] req.NewResource#1: codec.predValidRID(arg0, true)
+//@   safety[C15]
+
+// Each response closure writes exactly one frame.
+//@ closure HandleRequest#1
+//@   requires req != nil && r != nil
+//@   ensures[C07] replies == old(replies) + 1
+//@ closure HandleRequest#2
+//@   requires req != nil && r != nil
+//@   ensures[C07] replies == old(replies) + 1
+//@ closure HandleRequest#3
+//@   requires req != nil && r != nil
+//@   ensures[C07] replies == old(replies) + 1
+//@ closure HandleRequest#4
+//@   requires req != nil && r != nil
+//@   ensures[C07] replies == old(replies) + 1
+//@ closure HandleRequest#5
+//@   requires req != nil && r != nil
+//@   ensures[C07] replies == old(replies) + 1
+//@ closure HandleRequest#6
+//@   requires req != nil && r != nil
+//@   ensures[C07] replies == old(replies) + 1
